@@ -53,7 +53,26 @@ def fun(m, slashes):
     return m[0] == 'f' and m[2] in slashes
 
 
+SYMBOLS_OF = {}     # label -> the symbols under which this table knows it
+
+
 def justify(x, y, res, label, sym):
+    """why the result is NOT justified by the schema its LABEL names (None = justified).  The statement speaks of
+    labels only: under whatever symbol a label is written, it is judged by every schema of that label"""
+    if not SYMBOLS_OF:
+        for lab_, sym_ in LABELS:
+            SYMBOLS_OF.setdefault(lab_, []).append(sym_)
+    if sym not in SYMBOLS_OF.get(label, [sym]):
+        whys = [_justify(x, y, res, label, s2) for s2 in SYMBOLS_OF[label]]
+        return None if any(w is None for w in whys) else whys[0]
+    if label == 'lp':
+        whys = [_justify(x, y, res, label, s2) for s2 in SYMBOLS_OF['lp']]
+        if any(w is None for w in whys):
+            return None
+    return _justify(x, y, res, label, sym)
+
+
+def _justify(x, y, res, label, sym):
     pool = feats(x) | feats(y)
     k = (label, sym)
     if k == ('fa', '>'):
